@@ -2,6 +2,8 @@ package main
 
 import (
 	"go/types"
+
+	"golang.org/x/tools/go/ssa"
 )
 
 type ctxData struct{}
@@ -16,6 +18,7 @@ func registerExtra(e *Engine) {
 	registerEth(e)
 	registerRegexp(e)
 	registerABI(e)
+	registerCrypto(e)
 }
 
 // loggerValue returns the universal no-op logger object (*liblog.lgwr).
@@ -26,6 +29,20 @@ func loggerValue(e *Engine) value {
 }
 
 func registerPalomaHelpers(e *Engine) {
+	// util/libeth.ValidateEthAddress on the opaque rendering of a symbolic address
+	// (always a well-formed 20-byte address); concrete strings run the real code.
+	if e.pkg(modPath+"/util/libeth") != nil {
+		real := e.pkg(modPath + "/util/libeth").Func("ValidateEthAddress")
+		e.reg(modPath+"/util/libeth.ValidateEthAddress", func(fr *frame, args []value) value {
+			if ss, ok := args[0].(*SymStr); ok {
+				if len(ss.parts) == 2 && ss.parts[0].s == "0x~" && ss.parts[1].kind == "b" && len(ss.parts[1].cells) == 20 {
+					return nilErr()
+				}
+				abort("unmodelled", "ValidateEthAddress of symbolic string %s", ss)
+			}
+			return runBody(fr, real, args)
+		})
+	}
 	// x/skyway/types.convertByteArrToString: per-byte UTF-8 encoding (injective)
 	e.reg(modPath+"/x/skyway/types.convertByteArrToString", func(fr *frame, args []value) value {
 		cells := args[0].([]value)
@@ -64,4 +81,24 @@ func registerLogging(e *Engine) {
 	e.reg("cosmossdk.io/log.NewNopLogger", mk)
 	e.reg("cosmossdk.io/log.NewLogger", mk)
 	e.reg("cosmossdk.io/log.NewTestLogger", mk)
+}
+
+// runBody executes fn's SSA body, bypassing its intrinsic.
+func runBody(fr *frame, fn *ssa.Function, args []value) value {
+	p := fr.p
+	nf := &frame{p: p, caller: fr.caller, fn: fn, callpos: fr.callpos}
+	nf.env = make(map[ssa.Value]value, 16)
+	nf.block = fn.Blocks[0]
+	nf.locals = make([]value, len(fn.Locals))
+	for i, l := range fn.Locals {
+		nf.locals[i] = zero(derefType(l.Type()))
+		nf.env[l] = &nf.locals[i]
+	}
+	for i, prm := range fn.Params {
+		nf.env[prm] = args[i]
+	}
+	for nf.block != nil {
+		runFrame(nf)
+	}
+	return nf.result
 }
